@@ -769,6 +769,8 @@ func parseField(v reflect.Value, bytes []byte, initOffset int, params fieldParam
 		expectedClass := ClassContextSpecific
 		if params.application {
 			expectedClass = ClassApplication
+		} else if params.private {
+			expectedClass = ClassPrivate
 		}
 		if offset == len(bytes) {
 			err = StructuralError{"explicit tag has no child"}
